@@ -41,6 +41,8 @@ def make_sessions():
     from asyncssh import stream
 
     class RecMixin:
+        buffer_data = True
+
         def _rec_init(self, keep, hw):
             self.log = []
             self.keep = keep
@@ -62,7 +64,8 @@ def make_sessions():
 
         def data_received(self, data, datatype):
             self.log.append('data')
-            super().data_received(data, datatype)
+            if RecMixin.buffer_data:          # False: plain callback session, nothing accumulates in the stream
+                super().data_received(data, datatype)
 
         def eof_received(self):
             if not self._in_lost:
@@ -102,11 +105,13 @@ def make_sessions():
         def subsystem_requested(self, subsystem):
             return self.acc_final
 
+    CliSess.mixin = RecMixin
     return CliSess, SrvSess
 
 
 class Sim:
-    def __init__(self, window=256, hw=32, pktsize=128):
+    def __init__(self, window=256, hw=32, pktsize=128, buffer_data=True):
+        self.buffer_data = buffer_data
         self.W = window
         self.hw = hw
         self.pktsize = pktsize
@@ -134,6 +139,7 @@ class Sim:
         import asyncssh
         sim = self
         CliSess, SrvSess = make_sessions()
+        CliSess.mixin.buffer_data = self.buffer_data
         self.CliSess, self.SrvSess = CliSess, SrvSess
 
         class Srv(asyncssh.SSHServer):
@@ -170,7 +176,7 @@ class Sim:
             def auth_completed(self):
                 sim.olog['c'].append('auth')
 
-        srv_kw = dict(window=self.W, max_pktsize=self.pktsize, encoding=None)
+        srv_kw = dict(window=self.W, max_pktsize=self.pktsize, encoding=None, line_editor=False)
         tun, wire, acc, conn = await memwire.connected_pair(Srv, srv_kw=srv_kw,
                                                             cli_kw=dict(client_factory=Cli))
         await memwire.settle(SETTLE_TURNS)
